@@ -238,6 +238,11 @@ def analyse(src: Source) -> List[Report]:
         ci = next((c for c in prog.classes_in(f) if c.name == cls.name), None)
         # canonical forms: private / static helpers of the class hierarchy inlined, locals propagated
         methods = {m.name: (canon(prog, ci, m) if ci is not None else m) for m in cls.body if isinstance(m, ast.FunctionDef)}
+        if ci is not None:
+            # the vector methods may be inherited (written once in the base class, dispatching to the entry methods of `cls`)
+            for name, (owner, m) in prog.all_methods(ci).items():
+                if name not in methods and name in ("correct_position", "correct_separation", "separation_vector") and not _is_stub(m):
+                    methods[name] = canon(prog, ci, m)
         summaries[cls.name] = {}
 
         def resolve_symbol(e: ast.AST):
